@@ -18,10 +18,15 @@ RULE = (
     "Case = configuration (clear / obfuscated listening port each on | unconfigured | bind fails, 0..3 friends, 0..2 "
     "liked and hated interests, 0..2 favourite rooms, rooms.auto_join, rooms.private_room_invites, "
     "network.server.reconnect.auto + timeout 1..3 s, 0..2 shared directories with 1..3 directories of 1..3 files "
-    "scanned before login, peer connect mode race | fallback) x login reply (accept | reject | garbled | eof | silent) "
+    "scanned before login, peer connect mode race | fallback) x how these values reach the client (given at "
+    "construction | client built with different values and rooms / users / interests changed in place | ... replaced "
+    "as whole sub-models, before the first login; optionally a second change in place / by replacement between a "
+    "loss and the next login) x login reply (accept | reject | garbled | eof | silent) "
     "x fault position P1 (before login; login reply pending; after the client wrote k of its post-login frames, k "
     "enumerated; idle; download connecting / stalled; search with timeout pending; potential-parent connect slow / "
-    "hanging) x fault (none | requested = Network.disconnect_server | server EOF | server reset | write blocked -> "
+    "hanging; a scripted peer established as distributed parent at level 0 / level 2 whose connection survives the "
+    "server loss) x optional manual re-login (Network.connect_server + login() by the application when no automatic "
+    "reconnect applies) x fault (none | requested = Network.disconnect_server | server EOF | server reset | write blocked -> "
     "TIMEOUT | write error | stop()) x who performs the write that meets a blocked / failing transport (user command | "
     "periodic server ping | periodic wishlist job after WishlistInterval(2) with one wishlist item | queued message) x "
     "server outage (the first k = 0..3 reconnect attempts are refused | hang until the connect timeout | are reset "
@@ -30,8 +35,10 @@ RULE = (
     "frames of the automatic re-login; at the end). A real SoulSeekClient runs against the simulated server on the "
     "virtual loop; the fault positions are enumerated, the settings are enumerated one feature at a time and generated "
     "by Hypothesis. Oracle: (1) the multiset of frames the server received after Login.Request and before the first "
-    "server-initiated message equals the one computed from the settings (sub-multiset when the burst was cut), also "
-    "for the automatic re-login (within 25 s); (2) execute() raises InvalidSessionError before login, after a failed "
+    "server-initiated message equals the one computed from what client.settings says at login time (sub-multiset when "
+    "the burst was cut), also for the automatic and the manual re-login (within 25 s), where the branch position is "
+    "the one implied by the connected parent (level + 1, its root, parent search off) or level 0 / own name / search "
+    "on without one; (2) execute() raises InvalidSessionError before login, after a failed "
     "login, after a detected loss and after stop(), and works with a session; (3) every SessionInitializedEvent is "
     "followed by exactly one SessionDestroyedEvent for that session; 0.1 s after a loss and after stop() no known user "
     "carries server-derived data, no room is known, neither the own user nor a friend is considered tracked, the five "
@@ -46,6 +53,11 @@ RULE = (
     "fault/stop at a non-idle point; distinct = distinct sanitised case."
 )
 ASSUMPTIONS = [
+    "run-time settings changes cover the sections the login burst reads at login time (rooms, users.friends, interests); "
+    "listening ports (bound by the Network constructor), reconnect settings (read when the connection is made) and "
+    "shares (counts come from the scan) are given at construction",
+    "the parented point keeps the outage shorter than the 60 s peer read timeout (writers command / queued, no hanging "
+    "reconnect attempts); a parent connection that ended before the re-login leaves the branch position open",
     "in-memory TCP: ordered, lossless, latency 1 ms; the post-login burst takes zero virtual time, so mid-burst "
     "faults are delivered at the loop iteration in which the client writes its k-th frame (a real network can "
     "deliver a reset / EOF at any such point)",
@@ -73,13 +85,20 @@ HATED = ['pop', 'ska']
 ROOMS = ['r0', 'r1']
 PORT_MODES = ['on', 'off', 'fail']
 LOGINS = ['accept', 'reject', 'garbled', 'eof', 'silent']
-POINTS = ['prelogin', 'pending', 'burst', 'idle', 'transfer', 'search', 'parent']
-VARIANTS = {'transfer': ['connecting', 'stalled'], 'parent': ['slow', 'hang']}
+POINTS = ['prelogin', 'pending', 'burst', 'idle', 'transfer', 'search', 'parent', 'parented']
+# 'parented': a scripted peer became the distributed parent (announcing branch level 0, or level 2 + a root) before the
+# fault; its peer connection survives a loss of the server connection
+VARIANTS = {'transfer': ['connecting', 'stalled'], 'parent': ['slow', 'hang'], 'parented': ['level0', 'level2']}
+PARENT_NAME, PARENT_ROOT = 'par', 'rootuser'
+# how the configuration of the case reaches the client: given at construction | the client is constructed with different
+# values and the sections the login reads are changed in place | ... are replaced as whole sub-models
+APPLY = ['ctor', 'inplace', 'replace']
+SECTION_KEYS = ('friends', 'liked', 'hated', 'favs', 'auto_join', 'invites')
 FAULTS = ['none', 'requested', 'eof', 'reset', 'timeout', 'write_error', 'stop']
 LOSS_FAULTS = ('requested', 'eof', 'reset', 'timeout', 'write_error')
 RECONNECT_FAULTS = ('reset', 'timeout', 'write_error')
 P2_WHEN = ['end', 'loss', 'reconnecting', 'relogin']
-TIMED_POINTS = ('idle', 'transfer', 'search', 'parent')
+TIMED_POINTS = ('idle', 'transfer', 'search', 'parent', 'parented')
 # who performs the write that meets the blocked / failing transport: a user command, the periodic server ping, the
 # periodic wishlist job (WishlistInterval sent by the server, one wishlist item configured), a queued message
 WRITERS = ['command', 'ping', 'wishlist', 'queued']
@@ -175,12 +194,41 @@ def _sanitise(case):
         ok = 0
     if ok == 0:
         omode = None
+    if point == 'parented':
+        # the parent connection must outlive the outage (peer read timeout 60 s): short detection, short attempts
+        if writer in ('ping', 'wishlist'):
+            writer = 'command'
+        if omode == 'hang':
+            omode = 'refuse'
+    apply = c.get('apply') if c.get('apply') in APPLY else 'ctor'
+    # settings changed between the loss and the automatic re-login
+    change, apply2 = None, None
+    raw2 = c.get('change') if isinstance(c.get('change'), dict) else None
+    auto_relogin = cfg['reconnect'] and fault in RECONNECT_FAULTS
+    # without an automatic reconnect the application may reconnect and log in again itself
+    manual = bool(c.get('manual')) and login == 'accept' and fault in LOSS_FAULTS and not auto_relogin
+    if manual:
+        # the manual re-login is made by the driver itself: stop() comes after it
+        when, dt, k2 = 'end', 0.0, 0
+    if raw2 is not None and (auto_relogin or manual) and login == 'accept':
+        vals = raw2.get('cfg') if isinstance(raw2.get('cfg'), dict) else {}
+        change = {}
+        for key, pool, n in (('friends', FRIENDS, 3), ('liked', LIKED, 2), ('hated', HATED, 2), ('favs', ROOMS, 2)):
+            if key in vals:
+                change[key] = _subset(vals.get(key), pool, n)
+        for key in ('auto_join', 'invites'):
+            if key in vals:
+                change[key] = bool(vals.get(key))
+        apply2 = raw2.get('how') if raw2.get('how') in APPLY[1:] else 'inplace'
+        if not change:
+            change, apply2 = None, None
     return {'cfg': cfg, 'login': login, 'point': point, 'var': var, 'k': k, 'fault': fault,
-            'when': when, 'dt': dt, 'k2': k2, 'writer': writer, 'ok': ok, 'omode': omode}
+            'when': when, 'dt': dt, 'k2': k2, 'writer': writer, 'ok': ok, 'omode': omode,
+            'apply': apply, 'change': change, 'apply2': apply2, 'manual': manual}
 
 
 def _doc(cfg, login='accept', point='idle', fault='none', k=1, var=None, when='end', ms=50, k2=0, writer=None,
-         outage=None):
+         outage=None, apply=None, change=None, manual=False):
     p1 = {'point': point}
     if writer and writer != 'command':
         p1['writer'] = writer
@@ -196,6 +244,12 @@ def _doc(cfg, login='accept', point='idle', fault='none', k=1, var=None, when='e
     doc = {'cfg': dict(cfg), 'login': login, 'p1': p1, 'fault': fault, 'p2': p2}
     if outage and outage[0] > 0:
         doc['outage'] = {'k': outage[0], 'mode': outage[1]}
+    if apply and apply != 'ctor':
+        doc['apply'] = apply
+    if change:
+        doc['change'] = {'how': change[0], 'cfg': dict(change[1])}
+    if manual:
+        doc['manual'] = True
     return doc
 
 
@@ -220,12 +274,14 @@ def cfg_strategy(draw, favs=True):
 def case_strategy(draw, favs=True):
     cfg = draw(cfg_strategy(favs=favs))
     scenario = draw(st.sampled_from(['loss', 'loss', 'loss', 'loss', 'loss', 'stop', 'stop', 'login', 'config', 'config']))
-    any_point = st.sampled_from(['idle', 'burst', 'burst', 'burst', 'pending', 'prelogin', 'transfer', 'search', 'parent'])
+    any_point = st.sampled_from(['idle', 'burst', 'burst', 'burst', 'pending', 'prelogin', 'transfer', 'search', 'parent',
+                                 'parented', 'parented'])
+    apply = draw(st.sampled_from(APPLY))
     k = draw(st.integers(1, 20))
     if scenario == 'config':       # settings x plain life cycle (with or without pending work)
         point = draw(st.sampled_from(['idle', 'idle', 'idle', 'search', 'transfer', 'parent']))
         var = draw(st.sampled_from(VARIANTS[point])) if point in VARIANTS else None
-        return _doc(cfg, 'accept', point, 'none', var=var)
+        return _doc(cfg, 'accept', point, 'none', var=var, apply=apply)
     if scenario == 'login':        # logins that do not succeed
         login = draw(st.sampled_from(['reject', 'garbled', 'eof', 'silent']))
         return _doc(cfg, login, draw(st.sampled_from(['idle', 'prelogin', 'pending'])),
@@ -234,7 +290,7 @@ def case_strategy(draw, favs=True):
     point = draw(any_point)
     var = draw(st.sampled_from(VARIANTS[point])) if point in VARIANTS else None
     if scenario == 'stop':         # stop() at every point
-        return _doc(cfg, 'accept', point, 'stop', k=k, var=var)
+        return _doc(cfg, 'accept', point, 'stop', k=k, var=var, apply=apply)
     cfg['reconnect'] = draw(st.sampled_from([True, True, True, False]))
     fault = draw(st.sampled_from(['reset', 'reset', 'timeout', 'write_error', 'write_error', 'eof', 'requested']))
     when = draw(st.sampled_from(['end', 'end', 'loss', 'loss', 'reconnecting', 'relogin', 'relogin']))
@@ -243,7 +299,24 @@ def case_strategy(draw, favs=True):
     outage = (draw(st.sampled_from([0, 0, 1, 1, 2, 3])), draw(st.sampled_from(OUTAGE_MODES)))
     return _doc(cfg, 'accept', point, fault, k=k, var=var, when=when,
                 ms=draw(st.sampled_from([0, 1, 50, 300, 700, rt - 100, rt + 100, rt + 400, rt + 600, rt + 900])),
-                k2=draw(st.integers(0, 20)), writer=writer, outage=outage)
+                k2=draw(st.integers(0, 20)), writer=writer, outage=outage, apply=apply,
+                change=draw(st.none() | st.tuples(st.sampled_from(APPLY[1:]), change_strategy())),
+                manual=draw(st.booleans()))
+
+
+@st.composite
+def change_strategy(draw):
+    """A non-empty set of new values for the sections the login reads (applied between the loss and the re-login)."""
+    out = {}
+    for key, pool, n in (('friends', FRIENDS, 3), ('liked', LIKED, 2), ('hated', HATED, 2), ('favs', ROOMS, 2)):
+        if draw(st.booleans()):
+            out[key] = draw(st.lists(st.sampled_from(pool), unique=True, max_size=n))
+    for key in ('auto_join', 'invites'):
+        if draw(st.booleans()):
+            out[key] = draw(st.booleans())
+    if not out:
+        out['invites'] = draw(st.booleans())
+    return out
 
 
 # ---------------------------------------------------------------------------
@@ -278,7 +351,8 @@ def _frame_key(msg):
     return name, (repr(msg),)
 
 
-def _expected_frames(cfg):
+def _expected_frames(cfg, parent=None):
+    """``parent`` = (level, root) announced by the connected distributed parent, None without one."""
     exp = collections.Counter()
     exp[('SetListenPort', (CLEAR_PORT if cfg['clear'] == 'on' else 0, OBF_PORT if cfg['obf'] == 'on' else 0))] += 1
     exp[('SetStatus', (2,))] += 1
@@ -296,9 +370,14 @@ def _expected_frames(cfg):
     if cfg['auto_join']:
         for r in cfg['favs']:
             exp[('JoinRoom', (r,))] += 1
-    exp[('BranchLevel', (0,))] += 1
-    exp[('BranchRoot', (ME,))] += 1
-    exp[('ToggleParentSearch', (True,))] += 1
+    if parent is None:
+        exp[('BranchLevel', (0,))] += 1
+        exp[('BranchRoot', (ME,))] += 1
+        exp[('ToggleParentSearch', (True,))] += 1
+    elif parent != 'unknown':
+        exp[('BranchLevel', (parent[0] + 1,))] += 1
+        exp[('BranchRoot', (parent[1],))] += 1
+        exp[('ToggleParentSearch', (False,))] += 1
     return exp
 
 
@@ -307,8 +386,8 @@ def _n_burst(cfg):
     return sum(_expected_frames(cfg).values()) + 1
 
 
-def _compare_frames(got_msgs, cfg, complete, tolerated, tolerated_classes, tag, violate):
-    exp = _expected_frames(cfg)
+def _compare_frames(got_msgs, cfg, complete, tolerated, tolerated_classes, tag, violate, parent=None):
+    exp = _expected_frames(cfg, parent)
     got = collections.Counter(_frame_key(m) for m in got_msgs)
     for key in sorted(set(exp) | set(got), key=repr):
         name, vals = key
@@ -354,6 +433,34 @@ def _build_settings(cfg, tmp):
                     fh.write(b'x' * (10 + fi))
         xfer.share_dir_settings(s, root)
     return s
+
+
+def _decoy(cfg):
+    """Values that differ from the case's configuration in every section the login reads."""
+    return {'friends': [f for f in FRIENDS if f not in cfg['friends']][:2],
+            'liked': [i for i in LIKED if i not in cfg['liked']],
+            'hated': [i for i in HATED if i not in cfg['hated']],
+            'favs': [r for r in ROOMS if r not in cfg['favs']],
+            'auto_join': not cfg['auto_join'], 'invites': not cfg['invites']}
+
+
+def _apply_sections(settings, vals, how):
+    """Run-time change of the settings sections the login burst reads (rooms, users, interests)."""
+    from aioslsk.settings import InterestsSettings, RoomsSettings, UsersSettings
+    if how == 'replace':
+        settings.rooms = RoomsSettings(auto_join=vals['auto_join'], private_room_invites=vals['invites'],
+                                       favorites=set(vals['favs']))
+        settings.users = UsersSettings(friends=set(vals['friends']), blocked=dict(settings.users.blocked))
+        settings.interests = InterestsSettings(liked=set(vals['liked']), hated=set(vals['hated']))
+    else:
+        settings.rooms.auto_join = vals['auto_join']
+        settings.rooms.private_room_invites = vals['invites']
+        settings.rooms.favorites.clear()
+        settings.rooms.favorites.update(vals['favs'])
+        settings.users.friends = set(vals['friends'])
+        settings.interests.liked.clear()
+        settings.interests.liked.update(vals['liked'])
+        settings.interests.hated = set(vals['hated'])
 
 
 _TASK_PREFIXES = ('direct-connect', 'indirect-connect', 'queue-remotely', 'potential-parent', 'connect-to-peer',
@@ -482,7 +589,9 @@ def _run(c, tmp, res):
                 return exc
 
         # -- environment ---------------------------------------------------
-        settings = _build_settings(cfg, tmp)
+        # apply != 'ctor': the client is built with values that differ in every section; the case's values are set later
+        settings = _build_settings(cfg if c['apply'] == 'ctor' else dict(cfg, **_decoy(cfg)), tmp)
+        now = {'cfg': cfg, 'parent': None}      # what the settings / the tree say at the moment
         if c['writer'] == 'wishlist':
             from aioslsk.settings import WishlistSettingEntry
             settings.searches.wishlist = [WishlistSettingEntry(query='wished item')]
@@ -695,6 +804,13 @@ def _run(c, tmp, res):
                                                              f'never initialised')
 
         xfer_users = set()
+        parent_peer = {}
+
+        def parent_alive():
+            """The distributed connection the client opened to the scripted parent is open on both sides."""
+            par = parent_peer.get('peer')
+            return par is not None and any(l.typ == 'D' and l.incoming_to_peer and not l.ep.dead and not l.ep.peer_closed
+                                           for l in par.links)
 
         def check_cleared(where):
             # users: whoever is still known must carry no server-derived data (objects re-created from the settings
@@ -759,6 +875,9 @@ def _run(c, tmp, res):
             return
         if cfg['dirs']:
             await client.shares.scan()
+        if c['apply'] != 'ctor':
+            _apply_sections(client.settings, cfg, c['apply'])
+            res.label('settings:' + c['apply'])
         await probe_no_session('before-login')
 
         if point == 'prelogin' and fault != 'none':
@@ -852,7 +971,24 @@ def _run(c, tmp, res):
                                     indirect='silent')
                 srv.send(M.PotentialParents.Response([PotentialParent('pp', pp.ip, pp.port)]))
                 await asyncio.sleep(0.1)
-            if fault != 'none' and point in ('idle', 'transfer', 'search', 'parent'):
+            elif point == 'parented':
+                level = 0 if var == 'level0' else 2
+                par = world.add_peer(PARENT_NAME, direct='accept', direct_delay=0.002, indirect='silent')
+
+                def announce(link, level=level):
+                    if link.typ == 'D' and link.incoming_to_peer:
+                        data = M.DistributedBranchLevel.Request(level).serialize()
+                        if level:
+                            data += M.DistributedBranchRoot.Request(PARENT_ROOT).serialize()
+                        link.send_msg(data, delay=0.01)      # one segment: equal-deadline timers are not FIFO
+                par.on_link = announce
+                srv.send(M.PotentialParents.Response([PotentialParent(PARENT_NAME, par.ip, par.port)]))
+                await asyncio.sleep(0.3)
+                parent_peer['peer'] = par
+                parent_peer['announced'] = (level, PARENT_ROOT if level else PARENT_NAME)
+                if parent_alive():
+                    res.label('parent-established')
+            if fault != 'none' and point in TIMED_POINTS:
                 arm_p2()
                 inject(direct=False)
                 fault_fired = True
@@ -924,6 +1060,58 @@ def _run(c, tmp, res):
                     if populated:
                         res.label('cleared-checked-after-populated')
 
+        if lost and c['change'] and not stopping():
+            now['cfg'] = dict(cfg, **c['change'])
+            _apply_sections(client.settings, now['cfg'], c['apply2'])
+            res.label('settings-changed-before-relogin:' + c['apply2'])
+
+        async def check_relogin(tag):
+            """The burst of the login on the newest server session (automatic or manual re-login)."""
+            relogin_idx = len(world.server.sessions) - 1
+            if not stopping() and not check_deadlock('after the reconnect'):
+                logins2 = world.server.received(M.Login.Request, session=relogin_idx)
+                if not logins2:
+                    violate(f'C16/no-login-after-reconnect:{fault}', f'the client reconnected but sent no Login ({tag})')
+                elif login_mode == 'accept':
+                    # no deadline is stated for the advertisement: tracking retries (a loss in the middle of the
+                    # first burst leaves tracking requests that are re-sent by the 10 s retry) get 25 s
+                    # the branch position follows the parent that stayed connected; a parent connection that
+                    # ended meanwhile leaves both answers open
+                    par_now = None
+                    if parent_peer:
+                        par_now = parent_peer['announced'] if parent_alive() else 'unknown'
+                        res.label('relogin-with-parent' if par_now != 'unknown' else 'relogin-parent-gone')
+                    want = _expected_frames(now['cfg'], par_now)
+                    t_give_up = loop.time() + RELOGIN_WINDOW
+                    while loop.time() < t_give_up and not stopping():
+                        got = collections.Counter(_frame_key(m) for m in session_frames(relogin_idx, float('inf')))
+                        if all(got.get(k, 0) >= n for k, n in want.items()):
+                            break
+                        await asyncio.sleep(0.5)
+                    if not stopping():
+                        # pending work (transfer, potential parent) legitimately talks to the server again
+                        tol_classes = {'GetPeerAddress', 'ConnectToPeer', 'CannotConnect', 'GetUserStatus'} \
+                            if point in ('transfer', 'parent', 'parented') else set()
+                        if par_now == 'unknown':
+                            tol_classes |= {'BranchLevel', 'BranchRoot', 'ToggleParentSearch'}
+                        tol = {('AddUser', (ME,)): 1}
+                        for u in xfer_users:
+                            tol[('AddUser', (u,))] = 1
+                        # extra: what arrived with the burst; missing: what has not arrived after 25 s
+                        t_login2 = min(t for t, i, m in world.server.frames
+                                       if i == relogin_idx and isinstance(m, M.Login.Request))
+                        _compare_frames(session_frames(relogin_idx, t_login2 + 0.3), now['cfg'], False, tol,
+                                        tol_classes, tag, violate, parent=par_now)
+                        late_ok = collections.Counter(_frame_key(m) for m in session_frames(relogin_idx, float('inf')))
+                        for key, n in sorted(want.items(), key=repr):
+                            if late_ok.get(key, 0) < n:
+                                violate(f'C16/post-login-missing:{key[0]}',
+                                        f'{tag}: server received {late_ok.get(key, 0)}x {key[0]}{key[1]} within '
+                                        f'{RELOGIN_WINDOW:.0f} s after the new Login, settings imply {n}x')
+                        res.label('relogin-burst-checked')
+                        if client.session is None:
+                            violate('C16/no-session-after-relogin', f'no session after the {tag}')
+
         # -- reconnect automaton ------------------------------------------------
         if lost:
             horizon = t_loss + cfg['rtimeout'] + 1.0
@@ -969,42 +1157,21 @@ def _run(c, tmp, res):
             if expect and after and reachable and not stopping():
                 # automatic re-login and its burst
                 await asyncio.sleep(0.3)
-                relogin_idx = len(world.server.sessions) - 1
-                if not stopping() and not check_deadlock('after the reconnect'):
-                    logins2 = world.server.received(M.Login.Request, session=relogin_idx)
-                    if not logins2:
-                        violate(f'C16/no-login-after-reconnect:{fault}', 'the client reconnected but sent no Login')
-                    elif login_mode == 'accept':
-                        # no deadline is stated for the advertisement: tracking retries (a loss in the middle of the
-                        # first burst leaves tracking requests that are re-sent by the 10 s retry) get 25 s
-                        want = _expected_frames(cfg)
-                        t_give_up = loop.time() + RELOGIN_WINDOW
-                        while loop.time() < t_give_up and not stopping():
-                            got = collections.Counter(_frame_key(m) for m in session_frames(relogin_idx, float('inf')))
-                            if all(got.get(k, 0) >= n for k, n in want.items()):
-                                break
-                            await asyncio.sleep(0.5)
-                        if not stopping():
-                            # pending work (transfer, potential parent) legitimately talks to the server again
-                            tol_classes = {'GetPeerAddress', 'ConnectToPeer', 'CannotConnect', 'GetUserStatus'} \
-                                if point in ('transfer', 'parent') else set()
-                            tol = {('AddUser', (ME,)): 1}
-                            for u in xfer_users:
-                                tol[('AddUser', (u,))] = 1
-                            # extra: what arrived with the burst; missing: what has not arrived after 25 s
-                            t_login2 = min(t for t, i, m in world.server.frames
-                                           if i == relogin_idx and isinstance(m, M.Login.Request))
-                            _compare_frames(session_frames(relogin_idx, t_login2 + 0.3), cfg, False, tol, tol_classes,
-                                            're-login', violate)
-                            late_ok = collections.Counter(_frame_key(m) for m in session_frames(relogin_idx, float('inf')))
-                            for key, n in sorted(want.items(), key=repr):
-                                if late_ok.get(key, 0) < n:
-                                    violate(f'C16/post-login-missing:{key[0]}',
-                                            f're-login: server received {late_ok.get(key, 0)}x {key[0]}{key[1]} within '
-                                            f'{RELOGIN_WINDOW:.0f} s after the automatic Login, settings imply {n}x')
-                            res.label('relogin-burst-checked')
-                            if client.session is None:
-                                violate('C16/no-session-after-relogin', 'no session after the automatic re-login')
+                await check_relogin('re-login')
+            elif c['manual'] and not after and not stopping() and login_mode == 'accept' and \
+                    client.network.server_connection.state.name == 'CLOSED':
+                # no automatic reconnect (requested / EOF / reconnect off): the application reconnects and logs in itself
+                n_before = len(world.server.sessions)
+                try:
+                    await client.network.connect_server()
+                    await client.login()
+                except Exception as exc:
+                    violate(f'C16/unexpected-exception:{type(exc).__name__}@manual-relogin', repr(exc))
+                else:
+                    res.label('manual-relogin')
+                    await asyncio.sleep(0.3)
+                    if len(world.server.sessions) > n_before:
+                        await check_relogin('manual re-login')
             elif not stopping():
                 await asyncio.sleep(0.5)
 
@@ -1140,11 +1307,42 @@ def config_cases():
         out.append(dict(DEFAULT_CFG, dirs=dirs))
     out.append(dict(DEFAULT_CFG, reconnect=True))
     out.append(dict(CFG_RICH, favs=['r0', 'r1'], auto_join=False, invites=False, obf='fail', dirs=[[1], [2, 2]]))
-    return [_doc(cfg, 'accept', 'idle', 'none') for cfg in out]
+    return [_doc(cfg, 'accept', 'idle', 'none', apply=apply) for cfg in out for apply in APPLY]
+
+
+CHANGES = [{'favs': ['r1'], 'invites': False}, {'favs': ['r0', 'r1'], 'auto_join': False}, {'auto_join': True, 'invites': True},
+           {'friends': ['f2']}, {'friends': []}, {'liked': ['dub'], 'hated': []},
+           {'friends': ['f0', 'f2'], 'liked': [], 'hated': ['ska'], 'favs': ['r1'], 'auto_join': True, 'invites': False}]
+
+
+def change_cases():
+    """Settings changed (in place / by replacing the sections) between an unrequested loss and the automatic re-login."""
+    out = []
+    for cfg0 in (CFG_RICH, CFG_FAVS):
+        cfg = dict(cfg0, reconnect=True, rtimeout=1)
+        for apply in ('ctor', 'replace'):
+            for fault in RECONNECT_FAULTS:
+                for how in APPLY[1:]:
+                    for change in CHANGES:
+                        out.append(_doc(cfg, 'accept', 'idle', fault, apply=apply, change=(how, change)))
+        for var in VARIANTS['parented']:
+            for how in APPLY[1:]:
+                out.append(_doc(cfg, 'accept', 'parented', 'reset', var=var, change=(how, CHANGES[-1]), outage=(1, 'refuse')))
+        # manual re-login: requested disconnect / server EOF, or an unrequested loss with reconnect off
+        for auto, faults in ((True, ('requested', 'eof')), (False, LOSS_FAULTS)):
+            cfgm = dict(cfg0, reconnect=auto, rtimeout=1)
+            for fault in faults:
+                for point, var in (('idle', None), ('parented', 'level0'), ('parented', 'level2'), ('search', None)):
+                    out.append(_doc(cfgm, 'accept', point, fault, var=var, manual=True))
+                    for how in APPLY[1:]:
+                        out.append(_doc(cfgm, 'accept', point, fault, var=var, manual=True, change=(how, CHANGES[-1])))
+                        out.append(_doc(cfgm, 'accept', point, fault, var=var, manual=True, apply='replace',
+                                        change=(how, CHANGES[0])))
+    return out
 
 
 def enumerated_cases(tier):
-    out = config_cases()
+    out = config_cases() + change_cases()
     cfgs = (CFG_RICH, CFG_FAVS) if tier == 'quick' else (CFG_RICH, CFG_FAVS, CFG_BARE)
     for cfg0 in cfgs:
         n = _n_burst(cfg0)
@@ -1152,13 +1350,13 @@ def enumerated_cases(tier):
         k2s = [0, 2, 4, 6, 8, 10, 12] if tier == 'thorough' else [0, 4, 8]
         p1s = [('prelogin', 1, None), ('pending', 1, None)] + [('burst', k, None) for k in ks] + \
               [('idle', 1, None), ('transfer', 1, 'connecting'), ('transfer', 1, 'stalled'), ('search', 1, None),
-               ('parent', 1, 'slow'), ('parent', 1, 'hang')]
+               ('parent', 1, 'slow'), ('parent', 1, 'hang'), ('parented', 1, 'level0'), ('parented', 1, 'level2')]
         rt = cfg0['rtimeout'] * 1000
         for auto in (True, False):
             cfg = dict(cfg0, reconnect=auto)
             for point, k, var in p1s:
                 out.append(_doc(cfg, 'accept', point, 'stop', k=k, var=var))
-                if point in ('idle', 'transfer', 'search', 'parent'):
+                if point in TIMED_POINTS:
                     out.append(_doc(cfg, 'accept', point, 'none', k=k, var=var))
                 for fault in LOSS_FAULTS:
                     if auto and fault in RECONNECT_FAULTS:
